@@ -11,7 +11,13 @@ Genuinely linear functionals (<v, .>, multiples, sums, compositions with
 linear operators, ScalingFunctional on the field) are a stratum of their
 own, and three-step chains around an argument scaling (translation ->
 scaling, scaling -> translation, (f + c) -> scaling, perturbation ->
-scaling) are drawn on purpose (depth 3).
+scaling) are drawn on purpose (depth 3).  C09-specific variants are drawn
+on top of the shared catalogue (``_variants``): ``f - g`` next to ``f + g``,
+``f.bregman(p, s)`` next to ``BregmanDistance(f, p, s)``,
+the scalar 0 in ``0 * f`` / ``f * 0`` (documented special cases), and a
+caller-defined functional (``simple_functional`` wired from Python callables
+or operators) in place of a squared norm -- the leaf whose gradient,
+derivative and derived rules run through the ``Functional`` base class alone.
 
 Oracle (clauses):
   grad-fd     <grad f(x), d> in the space's own inner product against a
@@ -35,7 +41,27 @@ Oracle (clauses):
               on random, close and small-magnitude pairs and on pairs along
               the dominant curvature direction (SVD of the finite-difference
               Hessian in the space's geometry, dimension <= 8)
-  numgrad     NumericalGradient(f) is the gradient in the same sense
+  numgrad     NumericalGradient(f) (methods forward / backward / central,
+              given and documented default step) is the gradient in the same
+              sense (tolerance: the truncation bound from second differences
+              of the values) and equals, entry by entry, the documented
+              difference quotient of the functional's values
+  history     results depend on the functional and on the *values* of point
+              and direction only.  Every node is first used as above (many
+              calls at many points, all call styles); then, on the same
+              functional / gradient-operator / derivative-operator / element
+              objects: (a) the element returned by the first gradient(x) and
+              the operator returned by the first derivative(x) still give
+              what they gave (later calls at other points did not alter
+              them, operands unmodified); (b) after the caller overwrites
+              the returned gradient element in place, gradient(x) is
+              unchanged; (c) x is updated *in place* (same element object,
+              as every iterative solver does) and f(x), gradient(x),
+              gradient(x, out=used buffer), f.derivative(x)(d) are compared
+              with a twin -- the same expression built a second time from
+              the descriptor, evaluated once, at a fresh element with the
+              same values; (d) d is updated in place and D(d) on the
+              retained derivative operator is compared likewise
   not-offered gradients documented as not implemented raise
 """
 import numpy as np
@@ -54,7 +80,9 @@ TECHNIQUE = ('Hypothesis property-based testing over a functional catalogue '
              'a Romberg-extrapolated central-difference ladder of the '
              'functional values, derivative operators, documented values '
              'against an independent NumPy reference / the parts, Lipschitz '
-             'bounds on adversarial point pairs; descriptor replay')
+             'bounds on adversarial point pairs; used objects with in-place '
+             'updated operands against a freshly built twin; descriptor '
+             'replay')
 LEVEL_TEXT = ('Generated-input search over functional class x parameters x '
               'derivation rule (depth <= 2, incl. compositions with linear '
               'and nonlinear operators) x space (weighted, discretized, '
@@ -63,7 +91,10 @@ LEVEL_TEXT = ('Generated-input search over functional class x parameters x '
               'with an error estimate that does not involve the gradient; '
               'values against a reference that never imports odl; finite '
               'grad_lipschitz constants against gradient differences along '
-              'the dominant curvature direction. Exploration, not proof.')
+              'the dominant curvature direction; call-history independence '
+              '(in-place updated point / direction objects, retained and '
+              'overwritten results) against a twin built afresh from the '
+              'descriptor. Exploration, not proof.')
 LEVEL_NOTE = ('Trusted: NumPy, Hypothesis, vlib/ref/funcs_conj.py (reference '
               'values, smoothness radii), the library inner product / norm '
               '(pinned by C02). Base points keep a margin from kinks and '
@@ -90,8 +121,20 @@ TOLERANCES = {
     'lipschitz': '||grad f(p)-grad f(q)|| <= L*||p-q||*(1+1e-9) + 256*eps*'
                  '(||grad f(p)||+||grad f(q)||+L*(||p||+||q||))',
     'numgrad': '|<NumericalGradient(f)(x),d> - D| <= 1e-5*(|g|+||grad||*||d||'
-               '+S/(1+|x|)) + 16*err '
-               '(central differences with step 1e-4*(1+|x|))',
+               '+S/(1+|x|)) + 16*err + sum_i w_i|d_i|*(64*eps*F/h + 2*T_i), '
+               'h = given step 1e-4*(1+|x|) or the documented default '
+               'sqrt(eps), F = max|f| over the stencil, T_i = |f(x+h e_i) - '
+               '2f(x) + f(x-h e_i)|/h for forward / backward (first-order '
+               'truncation, from values only), 0 for central',
+    'numgrad_formula': 'entry-wise |NumericalGradient(f)(x)_i - documented '
+                       'quotient of the library values| <= 64*eps*F/h',
+    'history': 'retained gradient element: bitwise; retained derivative '
+               'operator: the derivative tolerance; used objects against the '
+               'twin: value 512*eps*n*(1+|f|+S), gradient entries as '
+               'grad_call_styles, derivative as derivative (the two sides '
+               'run the same code on the same numbers, so they agree to '
+               'rounding; a stale result differs by the step 0.5*h0*d times '
+               'the curvature)',
 }
 ASSUMPTIONS = [
     'real floating-point spaces only',
@@ -103,9 +146,17 @@ ASSUMPTIONS = [
     'MoreauEnvelope has no _call: its value is assembled as f(p)+||p-x||^2/'
     '(2 sigma) with p the library proximal',
     'space dimension <= 12',
+    'history clause: the in-place update moves x by 0.5*h0*d (inside the '
+    'smoothness radius used for the finite differences); a derivative '
+    'operator obtained *before* the in-place update is not required to be a '
+    'snapshot (not documented) and is not evaluated afterwards',
 ]
 RULE = ('Hypothesis draws (space, functional expression tree, base point, '
-        'direction, second point); non-trivial = the gradient clause was '
+        'direction, second point) and the C09 variants (f - g, f.bregman, '
+        'scalar 0, '
+        'caller-defined leaf, NumericalGradient method / step); every node '
+        'of the tree is judged on its own, each followed by the history '
+        'clause on the used objects; non-trivial = the gradient clause was '
         'judged with a reliable finite-difference estimate and a non-zero '
         'derivative or gradient, on a derived functional or a non-default '
         'space; distinct by sha1 of the descriptor')
@@ -115,6 +166,11 @@ REQUIRED_STRATA = [
     'clause:grad-fd', 'clause:derivative', 'clause:value-ref',
     'clause:value-parts', 'clause:lipschitz', 'clause:lipschitz-curvature',
     'clause:numgrad', 'clause:not-offered', 'clause:is-linear',
+    'clause:history', 'history:grad-moved', 'history:value-moved',
+    'clause:numgrad-formula', 'numgrad:forward', 'numgrad:backward',
+    'numgrad:central', 'numgrad-step:default', 'numgrad-step:given',
+    'variant:minus', 'variant:zero-left', 'variant:zero-right',
+    'variant:simple-fn', 'variant:simple-op', 'variant:bregman-method',
     'style:out-of-place', 'style:out-fresh', 'style:out-alias',
     'chain:trans-scale', 'chain:scale-trans', 'chain:sum-scale',
     'chain:pert-scale', 'linear:flagged', 'linear:part', 'cls:LinearForm',
@@ -158,16 +214,101 @@ def _strategy(draw, tier):
         depth = draw(st.sampled_from([0, 1, 1, 2, 2, 3]))
         fd = draw(Z.func_descs(sd, 'grad', depth))
     n = Z.space_dim(sd)
+    fd = _variants(draw, fd, sd, True)
     if not any(k in fd for k in ('f', 'parts')) and \
             sd['kind'] in ('tensor', 'discr') and \
-            draw(st.integers(0, 2)) == 0:
-        fd = dict(fd, numgrad=True)
+            draw(st.integers(0, 1)) == 0:
+        fd = dict(fd, numgrad=True,
+                  ng_method=draw(st.sampled_from(
+                      ['forward', 'backward', 'central'])),
+                  ng_step=draw(st.sampled_from(['default', 'given'])))
     return {'space': sd, 'func': fd,
             'probe_known': draw(st.integers(0, 3)) == 0,
             'x': draw(Z.vec(n, Z.nz_values())),
             'd': draw(Z.vec(n)),
             'z': draw(Z.vec(n, Z.nz_values())),
             'xscale': draw(st.sampled_from([1.0, 1.0, 0.3, 3.0]))}
+
+
+def _variants(draw, fd, sd, top):
+    """C09-specific variants of a catalogue descriptor (drawn here so that
+    the catalogue strategies shared with C08 stay as they are):
+
+    * ``f - g`` next to ``f + g`` (documented as ``f + (-1) * g``),
+    * ``f.bregman(point, subgrad)`` next to ``BregmanDistance(f, ...)``,
+    * the scalar 0 in ``0 * f`` and ``f * 0`` (documented special cases:
+      the zero functional and the constant ``f(0)``), top level only,
+    * a caller-defined functional (``simple_functional`` wired from Python
+      callables for a/2 |x|^2 + <b, x> + c) in place of a squared norm: the
+      only leaf whose gradient, derivative and derived rules run through
+      the ``Functional`` base class alone.  Not below a Moreau envelope
+      (needs a proximal) and not in a divisor (sign).
+    """
+    cls = fd['cls']
+    out = dict(fd)
+    if cls == 'L2NormSquared' and sd['kind'] != 'field':
+        if draw(st.integers(0, 3)) == 0:
+            m = Z.space_dim(sd)
+            return {'cls': 'Simple',
+                    'a': draw(st.sampled_from([2.0, 0.5, 3.0, 0.25])),
+                    'b': draw(st.one_of(st.none(), Z.vec(m))),
+                    'c': draw(st.sampled_from([0.0, 1.0, -2.5])),
+                    'with_prox': False, 'with_grad': True,
+                    'grad_op': draw(st.booleans())}
+        return out
+    if cls == 'moreau':
+        return out
+    if cls == 'sum':
+        out['minus'] = draw(st.booleans())
+    if cls == 'bregman':
+        out['via_method'] = draw(st.booleans())
+    if top and cls in ('leftscal', 'rightscal') and \
+            draw(st.integers(0, 5)) == 0:
+        out['s'] = 0.0
+    if cls == 'comp':
+        # the inner functional lives on the range of the operator
+        rsd = sd
+        od = fd['op']
+        if od['kind'] == 'matrix' and od.get('ran') is not None:
+            rsd = od['ran']
+        elif od['kind'] == 'gradient':
+            rsd = {'kind': 'pspace', 'base': sd,
+                   'power': len(sd['shape']), 'weighting': None,
+                   'exponent': 2.0}
+        out['f'] = _variants(draw, fd['f'], rsd, False)
+        return out
+    if cls == 'sepsum':
+        parts = build.space_parts(sd)
+        out['parts'] = [_variants(draw, p, parts[i], False)
+                        for i, p in enumerate(fd['parts'])]
+        return out
+    if cls == 'sepsum_power':
+        out['f'] = _variants(draw, fd['f'], sd['base'], False)
+        return out
+    if isinstance(fd.get('f'), dict):
+        out['f'] = _variants(draw, fd['f'], sd, False)
+    if isinstance(fd.get('g'), dict) and cls != 'quotient':
+        out['g'] = _variants(draw, fd['g'], sd, False)
+    return out
+
+
+def _variant_tags(fd, top=False):
+    tags = set()
+    cls = fd.get('cls')
+    if cls == 'sum' and fd.get('minus'):
+        tags.add('minus')
+    if top and cls in ('leftscal', 'rightscal') and float(fd['s']) == 0:
+        tags.add('zero-left' if cls == 'leftscal' else 'zero-right')
+    if cls == 'Simple':
+        tags.add('simple-op' if fd.get('grad_op') else 'simple-fn')
+    if cls == 'bregman' and fd.get('via_method'):
+        tags.add('bregman-method')
+    for key in ('f', 'g'):
+        if isinstance(fd.get(key), dict):
+            tags |= set(_variant_tags(fd[key]))
+    for p in fd.get('parts', []) or []:
+        tags |= set(_variant_tags(p))
+    return sorted(tags)
 
 
 def strategy(tier):
@@ -289,10 +430,17 @@ def run_case(desc):
         from vlib import core
         part = bc.built
         kr = known_region(part)
+        field_zero = sd['kind'] == 'field' and fd['cls'] == 'rightscal' \
+            and float(fd['s']) == 0
+        if field_zero:
+            # f * 0 evaluates f(domain.zero()); a field has no ``zero``
+            kr = 'C09-K9'
         if kr is not None and not desc.get('probe_known', False):
             return Outcome('excluded', strata=['excluded:' + kr])
         where, csig = core.crash_signature(PROPERTY, bc.exc)
         region = 'w=' + Z.wcoarse(part.sd)
+        if field_zero:
+            region += ',field,zero=right'
         if part.region_str():
             region += ',' + part.region_str()
         raise Violation('C09|crash|{}|{}|{}'.format(
@@ -303,10 +451,23 @@ def run_case(desc):
     zraw = np.asarray(desc['z'], float)
     out = None
     probe = bool(desc.get('probe_known', False))
-    for node, npts in _post_order(B, (xraw, draw_, zraw)):
+    # history-free twin: the same expression built a second time from the
+    # descriptor (fresh functional, operator and parameter objects); its
+    # nodes are visited in the same order and are evaluated only on fresh
+    # elements (history clause)
+    try:
+        B2 = Z.build_func(space, sd, fd)
+        twins = [t for t, _ in _post_order(B2, (xraw, draw_, zraw))]
+    except Exception:  # noqa  (the first build is the judged one)
+        twins = None
+    for k, (node, npts) in enumerate(_post_order(B, (xraw, draw_, zraw))):
         top = node is B
+        twin = None
+        if twins is not None and k < len(twins) and \
+                twins[k].cls == node.cls:
+            twin = twins[k]
         res = _guarded(node, npts, top, fd if top else {'cls': node.cls},
-                       probe)
+                       probe, twin)
         if res.status == 'excluded' and not top:
             return Outcome('excluded', strata=res.strata)
         if top:
@@ -374,10 +535,10 @@ def _post_order(B, pts):
     yield B, pts
 
 
-def _guarded(B, pts, top, fd, probe):
+def _guarded(B, pts, top, fd, probe, twin=None):
     ctx = {}
     try:
-        return _check_node(B, pts, top, fd, ctx, probe)
+        return _check_node(B, pts, top, fd, ctx, probe, twin)
     except (Violation, HarnessError):
         raise
     except Exception as e:  # noqa
@@ -392,7 +553,7 @@ def _guarded(B, pts, top, fd, probe):
             ctx['who'], ctx['region'], csig.split('|', 2)[2]), tb[-1200:])
 
 
-def _check_node(B, pts, top, fd, ctx, probe=True):
+def _check_node(B, pts, top, fd, ctx, probe=True, twin=None):
     sd, space = B.sd, B.space
     xraw, draw_, zraw = pts
     f, ref, geo = B.f, B.ref, B.geo
@@ -425,6 +586,8 @@ def _check_node(B, pts, top, fd, ctx, probe=True):
             strata.append('op:' + b.extra['opkind'])
     if top and fd.get('chain'):
         strata.append('chain:' + fd['chain'])
+    if top:
+        strata.extend('variant:' + v for v in _variant_tags(fd, True))
     if f.is_linear:
         strata.append('linear:flagged')
     if any(b.f.is_linear for b in B.nodes() if b is not B):
@@ -726,6 +889,7 @@ def _check_node(B, pts, top, fd, ctx, probe=True):
     hit('derivative')
     t = 64 * eps * max(n, 1) * (abs(g) + float(np.sum(geo.w * np.abs(gf) *
                                                       np.abs(df))))
+    tder = t
     if not abs(dv - g) <= t:
         raise Violation(
             sig('derivative'),
@@ -804,12 +968,17 @@ def _check_node(B, pts, top, fd, ctx, probe=True):
     # ---- (5) NumericalGradient ----------------------------------------------
     if top and fd.get('numgrad') and not B.children and reliable and \
             n <= 6 and not f32 and sd['kind'] in ('tensor', 'discr'):
-        step = 1e-4 * (1.0 + float(np.max(np.abs(xf))))
+        method = fd.get('ng_method', 'central')
+        given = fd.get('ng_step', 'given') == 'given'
+        # documented default step: sqrt(eps) of the space's dtype
+        step = 1e-4 * (1.0 + float(np.max(np.abs(xf)))) if given \
+            else float(np.sqrt(eps))
         ng_known = Z.wcoarse(sd) != 'none' or len(space.shape) > 1
         if ng_known and not probe:
             strata.append('excluded:C09-K5/K6')
-        elif 0.5 * step < 0.25 * rad:
-            NG = S.NumericalGradient(f, method='central', step=step)
+        elif step < 0.25 * rad:
+            NG = S.NumericalGradient(f, method=method, **(
+                {'step': step} if given else {}))
             try:
                 nge = NG(xe)
             except IndexError as e:
@@ -820,25 +989,251 @@ def _check_node(B, pts, top, fd, ctx, probe=True):
                         'NumericalGradient on a space of shape {} raises '
                         'IndexError: {}'.format(space.shape, str(e)[:80]))
                 raise
+            if nge not in space:
+                raise Violation(sig('numgrad-space'),
+                                'NumericalGradient(f)(x) is not an element '
+                                'of the domain')
+            ngf = flat.flat(nge, space)
             ngv = inner(nge, de)
             hit('numgrad')
+            strata.append('numgrad:' + method)
+            strata.append('numgrad-step:' + ('given' if given else 'default'))
             if len(space.shape) > 1:
                 strata.append('numgrad:ndim>1')
+            # values at x and at x +- h e_i (h/2 for 'central'): the
+            # documented quotient and a bound for its truncation error
+            hh = 0.5 * step if method == 'central' else step
+            f0 = value_at(xe)
+            fp, fm = np.empty(n), np.empty(n)
+            for k in range(n):
+                e = np.zeros(n)
+                e[k] = hh
+                fp[k] = value_at(X(xf + e)[0])
+                fm[k] = value_at(X(xf - e)[0])
+            fabs = max(abs(f0), float(np.max(np.abs(fp))),
+                       float(np.max(np.abs(fm))), fscale)
+            round_ = 64 * eps * fabs / step
+            if method == 'central':
+                quot = (fp - fm) / step
+                trunc = np.zeros(n)
+            elif method == 'forward':
+                quot = (fp - f0) / step
+                trunc = np.abs(fp - 2 * f0 + fm) / step
+            else:
+                quot = (f0 - fm) / step
+                trunc = np.abs(fp - 2 * f0 + fm) / step
+            wd = geo.w * np.abs(df)
             t = 1e-5 * (G + abs(best) + fscale / xs_) + 16 * err + \
-                64 * eps * abs(value_at(xe)) / step * float(
-                    np.sum(geo.w * np.abs(df)))
+                float(np.sum(wd * (round_ + 2 * trunc)))
             if abs(ngv - best) > t:
                 raise Violation(
                     'C09|numgrad|NumericalGradient|w={},ndim={}'.format(
                         Z.wcoarse(sd), len(space.shape)),
-                    '<NumericalGradient(f)(x), d> = {!r} but the directional '
-                    'derivative is {!r} (tol {:.3g}); f={} x={} d={}'.format(
-                        ngv, best, t, who, xf.tolist(), df.tolist()))
+                    '<NumericalGradient(f, method={!r})(x), d> = {!r} but the '
+                    'directional derivative is {!r} (tol {:.3g}); f={} x={} '
+                    'd={}'.format(method, ngv, best, t, who, xf.tolist(),
+                                  df.tolist()))
+            if not ng_known and np.all(np.isfinite(quot)):
+                # the documented difference quotient, entry by entry, from
+                # the library's own values (judged by the value clauses)
+                hit('numgrad-formula')
+                if not np.all(np.abs(ngf - quot) <= round_):
+                    k = int(np.argmax(np.abs(ngf - quot)))
+                    raise Violation(
+                        'C09|numgrad-formula|NumericalGradient|method={},'
+                        'step={}'.format(method,
+                                         'given' if given else 'default'),
+                        'NumericalGradient(f, method={!r}, step={!r})(x)[{}] '
+                        '= {!r} but the documented difference quotient of '
+                        'the values is {!r} (tol {:.3g}); f={} x={}'.format(
+                            method, step, k, float(ngf[k]), float(quot[k]),
+                            round_, who, xf.tolist()))
+
+    # ---- (6) history: results depend on the functional and on the *values*
+    # of point and direction only -- not on which calls were made before, not
+    # on the identity of the element objects, not on what the caller did to
+    # results handed out earlier.  Must stay the last clause: it updates x
+    # and d in place.
+    if twin is not None:
+        _history(B, twin, sig, hit, strata, X, inner, sk, n, eps, no_call,
+                 value_at, f, grad, xe, xf, de, df, ge, gf, D, dv, tder,
+                 0.5 * h0, fscale, xs_,
+                 fresh if sk != 'field' else None)
 
     nontrivial = judged and (abs(g) > 0 or abs(best) > 0) and \
         (bool(B.children) or sk != 'rn' or wk != 'unit')
     return Outcome('ok' if judged else 'trivial', strata=strata,
                    nontrivial=nontrivial, notes=notes)
+
+
+def _history(B, twin, sig, hit, strata, X, inner, sk, n, eps, no_call,
+             value_at, f, grad, xe, xf, de, df, ge, gf, D, dv, tder, tau,
+             fscale, xs_, outbuf):
+    """History clause (see the module docstring).  ``f``, ``grad``, ``D``,
+    ``xe``, ``de``, ``ge``, ``outbuf`` are the *used* objects of the clauses
+    before; ``twin`` is the same expression built afresh, evaluated on fresh
+    elements only."""
+    space, geo = B.space, B.geo
+    field = sk == 'field'
+    hit('history')
+
+    def hsig(what):
+        return sig('history') + ',' + what
+
+    def gtol_of(v):
+        return 256 * eps * max(n, 1) * (
+            float(np.max(np.abs(v))) + fscale / xs_) + 1e-300
+
+    def gflat(e, what, sp=space):
+        if field:
+            return np.array([float(e)])
+        if e not in sp:
+            raise Violation(hsig(what), 'gradient call does not give an '
+                            'element of the domain')
+        return flat.flat(e, sp)
+
+    # the twin lives on its own space objects (spaces with array weightings
+    # compare by identity)
+    tspace = twin.space
+
+    def X2(v):
+        return Z.elem(tspace, v)
+
+    # (a) results handed out earlier are values: the calls made since (other
+    # points, other call styles, the Lipschitz pairs) must not have changed
+    # them
+    if not field and not np.array_equal(flat.flat(ge, space), gf):
+        raise Violation(
+            hsig('retained-gradient'),
+            'the element returned by the first gradient(x) call was altered '
+            'by later calls of the same gradient operator at other points: '
+            'now {} instead of {}'.format(flat.flat(ge, space).tolist(),
+                                          gf.tolist()))
+    dv_again = _fval(D(de))
+    if not abs(dv_again - dv) <= tder:
+        raise Violation(
+            hsig('retained-derivative'),
+            'D = f.derivative(x) gives D(d) = {!r} after later calls of the '
+            'functional at other points, but gave {!r} right after its '
+            'construction (x and d unchanged)'.format(dv_again, dv))
+    if not field and not (np.array_equal(flat.flat(xe, space), xf) and
+                          np.array_equal(flat.flat(de, space), df)):
+        raise Violation(hsig('operand-modified'),
+                        'the evaluation point or the direction was modified '
+                        'by gradient / derivative calls')
+
+    # (b) the caller may do what it likes with a returned gradient (solvers
+    # scale and add to it in place); later results must not notice
+    if not field and ge is not xe and ge is not de:
+        ge.lincomb(-3.0, ge, 1.0, de)
+        if not np.array_equal(flat.flat(xe, space), xf):
+            raise Violation(hsig('result-alias'),
+                            'gradient(x) returned an element that shares '
+                            'memory with x')
+        gb = gflat(grad(xe), 'result-alias')
+        if not np.all(np.abs(gb - gf) <= gtol_of(gf)):
+            raise Violation(
+                hsig('result-alias'),
+                'after the caller modified the element returned by '
+                'gradient(x) in place, gradient(x) gives {} instead of {} '
+                '(x unchanged): the result shares state with the functional'
+                ''.format(gb.tolist(), gf.tolist()))
+
+    # (c) the same point object, updated in place (every iterative solver
+    # does that), against the twin at a fresh element with the same values
+    fx_old = None if no_call else value_at(xe)
+    if field:
+        xe = float(xe) + tau * float(de)
+        x2f = np.array([xe])
+    else:
+        xe.lincomb(1.0, xe, tau, de)
+        x2f = flat.flat(xe, space)
+    x2e, _ = X2(x2f)
+    d2e, _ = X2(df)
+    F2 = twin.f
+    exp_g = gflat(F2.gradient(x2e), 'twin', tspace)
+    DT = F2.derivative(x2e)
+    exp_dv = _fval(DT(d2e))
+    if not (np.all(np.isfinite(exp_g)) and np.isfinite(exp_dv)):
+        strata.append('history:not-finite')
+        return
+    gtol = gtol_of(exp_g)
+    tval = None
+    if np.any(np.abs(exp_g - gf) > 64 * gtol):
+        strata.append('history:grad-moved')
+
+    def stale(got, old, tol):
+        return (' (that is the result for the previous content of x)'
+                if np.all(np.abs(np.asarray(got) - np.asarray(old)) <= tol)
+                else '')
+
+    if not no_call:
+        exp_v = _fval(twin.value(x2e))
+        got_v = value_at(xe)
+        tval = 512 * eps * max(n, 1) * (1.0 + abs(exp_v) + fscale)
+        if np.isfinite(exp_v) and not abs(got_v - exp_v) <= tval:
+            raise Violation(
+                hsig('inplace-point:value'),
+                'after updating x in place f(x) = {!r}, but a freshly built '
+                'functional gives {!r} at a fresh element with the same '
+                'values{}; x={}'.format(got_v, exp_v,
+                                        stale(got_v, fx_old, tval),
+                                        x2f.tolist()))
+        if np.isfinite(exp_v) and abs(exp_v - fx_old) > 64 * tval:
+            strata.append('history:value-moved')
+
+    def cmp_grad(got, what, how):
+        gv = gflat(got, what)
+        if not np.all(np.abs(gv - exp_g) <= gtol):
+            k = int(np.argmax(np.where(np.isnan(gv - exp_g), np.inf,
+                                       np.abs(gv - exp_g))))
+            raise Violation(
+                hsig(what),
+                'after updating x in place {} has entry {} = {!r}, but a '
+                'freshly built functional gives {!r} at a fresh element with '
+                'the same values (tol {:.3g}){}; x={}'.format(
+                    how, k, float(gv[k]), float(exp_g[k]), gtol,
+                    stale(gv, gf, gtol), x2f.tolist()))
+
+    D2 = f.derivative(xe)
+    got_dv = _fval(D2(de))
+    t2 = 64 * eps * max(n, 1) * (abs(exp_dv) + float(np.sum(
+        geo.w * np.abs(exp_g) * np.abs(df)))) + 1e-300
+    if not abs(got_dv - exp_dv) <= t2:
+        raise Violation(
+            hsig('inplace-point:derivative'),
+            'after updating x in place f.derivative(x)(d) = {!r}, but a '
+            'freshly built functional gives {!r} at a fresh element with the '
+            'same values (tol {:.3g}){}; x={} d={}'.format(
+                got_dv, exp_dv, t2, stale(got_dv, dv, tder), x2f.tolist(),
+                df.tolist()))
+    cmp_grad(grad(xe), 'inplace-point:gradient', 'gradient(x)')
+    if outbuf is not None:
+        grad(xe, out=outbuf)
+        cmp_grad(outbuf, 'inplace-point:gradient-out',
+                 'gradient(x, out=g) (g used as out before)')
+
+    # (d) the same direction object, updated in place, on the retained
+    # derivative operator
+    if field:
+        de = -0.5 * float(de) + 0.25 * float(xe)
+        d3f = np.array([de])
+    else:
+        de.lincomb(-0.5, de, 0.25, xe)
+        d3f = flat.flat(de, space)
+    d3e, _ = X2(d3f)
+    exp_dv3 = _fval(DT(d3e))
+    got_dv3 = _fval(D2(de))
+    t3 = 64 * eps * max(n, 1) * (abs(exp_dv3) + float(np.sum(
+        geo.w * np.abs(exp_g) * np.abs(d3f)))) + 1e-300
+    if np.isfinite(exp_dv3) and not abs(got_dv3 - exp_dv3) <= t3:
+        raise Violation(
+            hsig('inplace-direction'),
+            'D = f.derivative(x): after updating d in place D(d) = {!r}, '
+            'but a freshly built functional gives {!r} for a fresh element '
+            'with the same values (tol {:.3g}){}; x={} d={}'.format(
+                got_dv3, exp_dv3, t3, stale(got_dv3, got_dv, t2),
+                x2f.tolist(), d3f.tolist()))
 
 
 def _pull(ref, center, v):
